@@ -131,6 +131,19 @@ func runByz(e *Env) {
 	// a wrong-kind SCHEMA_CHANGE result legitimately makes the driver wait for schema
 	// agreement for up to this long; keep it short so that bounds stay tight
 	cfg.MaxWaitSchemaAgreement = 2 * time.Second
+	if tp.Chance(1, 4) {
+		// event classes the session does not register for (the node may push them anyway)
+		cfg.Events.DisableNodeStatusEvents = tp.Chance(1, 2)
+		cfg.Events.DisableTopologyEvents = tp.Chance(1, 2)
+		cfg.Events.DisableSchemaEvents = tp.Chance(1, 2)
+		k.Fault("byz.event-classes-disabled")
+	}
+	if !e.NoFaults && ctrl && tp.Chance(1, 3) {
+		// (without a control connection - an internal test switch, not a public option -
+		// the session has nothing to handle events with)
+		cl.EventsToAll = true
+		k.Fault("byz.events-on-unregistered-connections")
+	}
 	if auth {
 		cl.AuthClass = "org.apache.cassandra.auth.PasswordAuthenticator"
 		cfg.Authenticator = gocql.PasswordAuthenticator{Username: "u", Password: "p"}
@@ -416,6 +429,11 @@ func runByz(e *Env) {
 		byzFinish(k, cl, nil, &ms0, compress)
 		return
 	}
+
+	// no asynchronous prefetch: a consumer reaching the page end during one blocks on the
+	// sync.Once inside nextIter.fetch, which synctest cannot see through (any reply can be
+	// turned into a page with a paging state by the wrong-kind menu)
+	sess.SetPrefetch(0)
 
 	// ---- workload ----
 	hasSchemaOps := false
